@@ -236,6 +236,11 @@ func scanHeaders(s *commitScanner) (commitState, error) {
 	}
 
 	if err == io.EOF {
+		// The object ends on this header line (no final LF): a pending
+		// extra header has no continuation state to finalise it.
+		if s.extra != nil {
+			s.finaliseExtra()
+		}
 		return nil, nil
 	}
 	return next, nil
